@@ -208,7 +208,7 @@ pub struct Run {
     pub final_state: (u32, u64),
 }
 
-type Ex<'a, T> = Full<Rich<'a, T, SimpleSpan>, Track, ()>;
+type Ex<'a, T, S = SimpleSpan> = Full<Rich<'a, T, S>, Track, ()>;
 
 macro_rules! slice_arm {
     (yes, $e:expr) => {
@@ -221,10 +221,13 @@ macro_rules! slice_arm {
 
 macro_rules! driver {
     ($name:ident, $I:ty, $T:ty, $sl:tt, $ex:tt, $slice_obs:expr) => {
+        driver!($name, $I, $T, SimpleSpan, $sl, $ex, $slice_obs);
+    };
+    ($name:ident, $I:ty, $T:ty, $S:ty, $sl:tt, $ex:tt, $slice_obs:expr) => {
         #[allow(clippy::redundant_closure_call)]
         pub fn $name<'a>(mk: &dyn Fn() -> $I, script: &[Op], tok: fn(char) -> $T, untok: fn($T) -> char) -> Result<Run, String> {
             let script: Vec<Op> = script.to_vec();
-            let p = custom::<_, $I, Vec<(Obs, (usize, usize), (u32, u64))>, Ex<'a, $T>>(move |inp| {
+            let p = custom::<_, $I, Vec<(Obs, (usize, usize), (u32, u64))>, Ex<'a, $T, $S>>(move |inp| {
                 let mut cps = vec![];
                 let mut out = vec![];
                 for op in &script {
@@ -247,12 +250,14 @@ macro_rules! driver {
                             Obs::Unit
                         }
                         Op::SpanSince(i) => {
-                            let s: SimpleSpan = inp.span_since(cps[i as usize].cursor());
-                            Obs::Span(s.start, s.end)
+                            let s: $S = inp.span_since(cps[i as usize].cursor());
+                            let (a, b) = cvh::interp::SpK::pair(&s);
+                            Obs::Span(a, b)
                         }
                         Op::SpanFrom(i) => slice_arm!($ex, {
-                            let s: SimpleSpan = inp.span_from(cps[i as usize].cursor()..);
-                            Obs::SpanFrom(s.start, s.end)
+                            let s: $S = inp.span_from(cps[i as usize].cursor()..);
+                            let (a, b) = cvh::interp::SpK::pair(&s);
+                            Obs::SpanFrom(a, b)
                         }),
                         Op::SliceSince(i) => slice_arm!($sl, {
                             let sl = inp.slice_since(cps[i as usize].cursor()..);
@@ -276,12 +281,16 @@ macro_rules! driver {
                         }
                     };
                     let c = inp.cursor();
-                    let h: SimpleSpan = inp.span_since(&c);
+                    let h: $S = inp.span_since(&c);
+                    let h = {
+                        let (a, b) = cvh::interp::SpK::pair(&h);
+                        (a, b)
+                    };
                     let st = {
                         let s = inp.state();
                         (s.count, s.hash)
                     };
-                    out.push((o, (h.start, h.end), st));
+                    out.push((o, h, st));
                 }
                 Ok(out)
             });
@@ -306,6 +315,19 @@ fn chars_slice(s: &[char]) -> Obs {
 fn u8_slice(s: &[u8]) -> Obs {
     Obs::Slice(e1::buf_off(s.as_ptr() as usize, s.len()), s.iter().map(|b| *b as char).collect())
 }
+/// offset of a slice whose address says nothing: `Bytes::slice` of an empty range is a fresh empty `Bytes`
+/// (documented in the bytes crate), so only its emptiness is observable
+const ANY_OFFSET: usize = usize::MAX - 1;
+fn bytes_slice(s: bytes::Bytes) -> Obs {
+    if s.is_empty() {
+        Obs::Slice(ANY_OFFSET, String::new())
+    } else {
+        u8_slice(&s)
+    }
+}
+fn rebase(s: SimpleSpan) -> core::ops::Range<usize> {
+    s.start + 100..s.end + 100
+}
 fn no_slice(_: ()) -> Obs {
     Obs::Unit
 }
@@ -316,6 +338,11 @@ driver!(drive_u8, &'a [u8], u8, yes, yes, u8_slice);
 driver!(drive_stream, e1::StreamIn, char, no, yes, no_slice);
 driver!(drive_mapped, e1::MappedIn<'a>, char, no, yes, no_slice);
 driver!(drive_io, e1::IoIn<'a>, u8, no, no, no_slice);
+driver!(drive_boxed_stream, e1::BoxedStreamIn<'a>, char, no, no, no_slice);
+driver!(drive_bytes, bytes::Bytes, u8, yes, yes, bytes_slice);
+driver!(drive_array, &'a [char; e1::ARR_N], char, yes, yes, chars_slice);
+driver!(drive_with_ctx, e1::WithCtxIn<'a>, char, SimpleSpan<usize, u8>, yes, yes, str_slice);
+driver!(drive_map_span, e1::MapSpanIn<'a>, char, core::ops::Range<usize>, yes, yes, str_slice);
 
 #[derive(Clone, Copy, Debug, PartialEq, Eq)]
 pub enum CK {
@@ -326,9 +353,15 @@ pub enum CK {
     Stream,
     MappedGapped,
     Io,
+    BoxedStream,
+    Bytes,
+    Array,
+    WithCtx,
+    WithCtxMb,
+    MapSpan,
 }
 impl CK {
-    pub const ALL: [CK; 7] = [CK::Str, CK::StrMb, CK::Chars, CK::U8, CK::Stream, CK::MappedGapped, CK::Io];
+    pub const ALL: [CK; 13] = [CK::Str, CK::StrMb, CK::Chars, CK::U8, CK::Stream, CK::MappedGapped, CK::Io, CK::BoxedStream, CK::Bytes, CK::Array, CK::WithCtx, CK::WithCtxMb, CK::MapSpan];
     pub fn name(self) -> &'static str {
         match self {
             CK::Str => "&str",
@@ -338,6 +371,12 @@ impl CK {
             CK::Stream => "Stream",
             CK::MappedGapped => "Input::map(gapped)",
             CK::Io => "IoInput",
+            CK::BoxedStream => "BoxedStream",
+            CK::Bytes => "Bytes",
+            CK::Array => "&[char; 3]",
+            CK::WithCtx => "with_context",
+            CK::WithCtxMb => "with_context(multibyte)",
+            CK::MapSpan => "map_span",
         }
     }
     pub fn from_name(s: &str) -> Option<CK> {
@@ -345,10 +384,18 @@ impl CK {
     }
     /// the input knows its size (`ExactSizeInput`): `span_from` is available
     pub fn exact(self) -> bool {
-        !matches!(self, CK::Io)
+        !matches!(self, CK::Io | CK::BoxedStream)
     }
     pub fn slices(self) -> bool {
-        matches!(self, CK::Str | CK::StrMb | CK::Chars | CK::U8)
+        matches!(self, CK::Str | CK::StrMb | CK::Chars | CK::U8 | CK::Bytes | CK::Array | CK::WithCtx | CK::WithCtxMb | CK::MapSpan)
+    }
+    /// only inputs of exactly this length exist for the kind
+    pub fn fixed_len(self) -> Option<usize> {
+        if self == CK::Array {
+            Some(e1::ARR_N)
+        } else {
+            None
+        }
     }
 }
 
@@ -398,6 +445,39 @@ pub fn run_real(kind: CK, toks: &[char], script: &[Op]) -> Result<Run, String> {
             let eoi: SimpleSpan = (3 * n + 1..3 * n + 1).into();
             drive_mapped(&|| buf.as_slice().map(eoi, e1::map_tok_fn()), script, id, id).map(|run| normalise(run, &|s| e1::gapped_norm(n, s), &|o| Some(o)))
         }
+        CK::BoxedStream => {
+            let buf: Vec<char> = toks.to_vec();
+            // an iterator without a size hint, boxed
+            drive_boxed_stream(&|| chumsky::input::Stream::from_iter(buf.clone().into_iter().filter(|_| true)).boxed(), script, id, id).map(|run| normalise(run, &|s| e1::index_norm(n, s), &|o| Some(o)))
+        }
+        CK::Bytes => {
+            let buf = bytes::Bytes::from(toks.iter().map(|c| *c as u8).collect::<Vec<u8>>());
+            e1::BUF_SET(buf.as_ptr() as usize, buf.len());
+            drive_bytes(&|| buf.clone(), script, to_u8, from_u8).map(|run| normalise(run, &|s| e1::index_norm(n, s), &|o| Some(o)))
+        }
+        CK::Array => {
+            let buf: [char; e1::ARR_N] = [toks[0], toks[1], toks[2]];
+            e1::BUF_SET(buf.as_ptr() as usize, buf.len() * 4);
+            drive_array(&|| &buf, script, id, id).map(|run| normalise(run, &|s| e1::index_norm(n, s), &|o| Some(o)))
+        }
+        CK::WithCtx | CK::WithCtxMb => {
+            let mb = kind == CK::WithCtxMb;
+            MB.with(|m| m.set(mb));
+            let buf: String = toks.iter().map(|c| if mb { render(*c) } else { *c }).collect();
+            e1::BUF_SET(buf.as_ptr() as usize, buf.len());
+            let table = e1::byte_table(&buf);
+            let tokf: fn(char) -> char = <char as cvh::interp::TokK>::from_char;
+            let untok: fn(char) -> char = <char as cvh::interp::TokK>::to_char;
+            let r = drive_with_ctx(&|| buf.as_str().with_context(7u8), script, tokf, untok);
+            MB.with(|m| m.set(false));
+            r.map(|run| normalise(run, &|s| e1::from_table(&table, s), &|o| e1::from_table(&table, (o, o)).map(|x| x.0)))
+        }
+        CK::MapSpan => {
+            let buf: String = toks.iter().collect();
+            e1::BUF_SET(buf.as_ptr() as usize, buf.len());
+            // spans are re-based by +100, slice offsets are plain buffer offsets
+            drive_map_span(&|| buf.as_str().map_span(rebase as e1::SpanFn), script, id, id).map(|run| normalise(run, &|(a, b)| if a >= 100 && b >= 100 { e1::index_norm(n, (a - 100, b - 100)) } else { None }, &|o| Some(o)))
+        }
         CK::Io => {
             let buf: Vec<u8> = toks.iter().map(|c| *c as u8).collect();
             drive_io(&|| chumsky::input::IoInput::new(std::io::Cursor::new(&buf[..])), script, to_u8, from_u8).map(|run| normalise(run, &|s| e1::index_norm(n, s), &|o| Some(o)))
@@ -424,6 +504,7 @@ fn normalise(mut run: Run, span: &dyn Fn((usize, usize)) -> Option<(usize, usize
                 *a = span((*a, *a)).map_or(BAD, |x| x.0);
                 *b = span((*b, *b)).map_or(BAD, |x| x.0);
             }
+            Obs::Slice(o, _) if *o == ANY_OFFSET => {}
             Obs::Slice(o, _) => {
                 *o = if *o == BAD { BAD } else { off(*o).unwrap_or(BAD) };
             }
@@ -485,6 +566,14 @@ pub fn predict(t: &[char], script: &[Op], slices: bool, exact: bool) -> Option<(
 pub fn check_script(kind: CK, t: &[char], script: &[Op]) -> Result<(), String> {
     let (want, fin) = predict(t, script, kind.slices(), kind.exact()).ok_or("script not enabled in the model")?;
     let run = run_real(kind, t, script)?;
+    let mut want = want;
+    for (w, g) in want.iter_mut().zip(run.steps.iter()) {
+        if let (Obs::Slice(wo, wt), Obs::Slice(ANY_OFFSET, _)) = (&mut w.o, &g.o) {
+            if wt.is_empty() {
+                *wo = ANY_OFFSET;
+            }
+        }
+    }
     if run.steps != want {
         let k = run.steps.iter().zip(want.iter()).position(|(a, b)| a != b).unwrap_or(0);
         return Err(format!("step {k} ({}): observed {:?}, model {:?}", script[k].name(), run.steps.get(k), want.get(k)));
@@ -508,6 +597,9 @@ pub fn run(unit: &str, len: usize, cx: &ShardCtx) -> UnitResult {
     let mut maxpath = 0usize;
     for kind in CK::ALL {
         for t in &ins {
+            if kind.fixed_len().map_or(false, |l| l != t.len()) {
+                continue;
+            }
             let me = case % cx.nshards == cx.shard;
             case += 1;
             if !me || cx.skip.contains(&(case - 1)) {
